@@ -17,7 +17,7 @@
 
 static vf_rng R;
 static int g_thorough = 0;
-static long long g_budget = 1500000;   /* word-multiplications allowed per modpow call */
+static long long g_budget = 1000000;   /* word-multiplications allowed per modpow call */
 static unsigned long long g_seed = 1;
 
 #define HASSERT(c, name) do { if (!(c)) { fflush(stdout); \
